@@ -204,6 +204,19 @@ func init() {
 			x.inputs = append(x.inputs, Input{Kind: "choose", Val: v.U})
 			return v
 		},
+		// vNumAt(buf, pos): the float whose strconv text starts at buf[pos], and
+		// the position after it.
+		"vNumAt": func(x *Exec, _ *ssa.Function, a []Value) Value {
+			buf := a[0].(SliceV)
+			pos := int(a[1].(*smt.Term).Int())
+			if pos < 0 || pos >= buf.Len {
+				return Tuple{x.C.FC(0), x.C.IntC(64, int64(pos)), x.C.False()}
+			}
+			if tok, ok := buf.Arr.Sub[buf.Off+pos].V.(NumTok); ok {
+				return Tuple{tok.F, x.C.IntC(64, int64(pos+1)), x.C.True()}
+			}
+			return Tuple{x.C.FC(0), x.C.IntC(64, int64(pos)), x.C.False()}
+		},
 		"vLoadTape": func(x *Exec, _ *ssa.Function, a []Value) Value { return nil },
 	}
 }
